@@ -6,11 +6,11 @@ import S3V.Base.Bytes
 party code; the model starts at the parsed JSON value (`Json`, objects as *ordered* member lists in
 which a name may repeat, exactly what a `MapAccess` hands to a visitor) and mirrors
 
-* the derived `Serialize` of `Policy`, `Statement`, … and the derived `Deserialize` of `Policy`, `Version`,
+* the derived `Serialize` of `Policy`, `Statement`, … and the derived `Deserialize` of `Version`,
   `Effect`, `ConditionRule`, `ConditionKeyValues` (serde_derive 1.0.219: `rename_all = "PascalCase"`,
   `rename`, `flatten`, no `skip_serializing_if`, no `deny_unknown_fields`), and
-* the hand-written impls: `Deserialize for Statement`, and both directions of `Principal`,
-  `OneOrMore<T>`, `WildcardOneOrMore<T>`.
+* the hand-written impls: `Deserialize for Policy`, `Deserialize for Statement`, and both directions of
+  `Principal`, `OneOrMore<T>`, `WildcardOneOrMore<T>`.
 
 What the code does, and the model therefore does (each item checked on the real code by the
 correspondence run, see `harness/src/bin/h_policy.rs`):
@@ -19,8 +19,10 @@ correspondence run, see `harness/src/bin/h_policy.rs`):
   absent member both give `None`.
 * Unknown members are ignored (both structs). A repeated *known* member (`Version`, `Id`,
   `Statement`; `Sid`, `Effect`, `Condition`) is an error.
-* `Policy` has no flattened field, so it is read with `deserialize_struct`, for which serde_json also
-  accepts a JSON *array* (`visit_seq`: the fields in declaration order, exactly three elements).
+* `Policy` is read by a hand-written visitor through `deserialize_map` (objects only: the visitor has
+  no `visit_seq`, so a JSON array — which the derived `deserialize_struct` reader used to take as the
+  three fields in declaration order — is an `invalid_type` error) with one slot per member `Version`,
+  `Id`, `Statement`; `Statement` must be there at the end.
 * `Statement` is written as a map with its three rule enums flattened into it (derived `Serialize`).
   It is read by a hand-written visitor through `deserialize_map` (objects only) that has one slot per
   block of the grammar: `Sid`, `Principal`/`NotPrincipal`, `Effect`, `Action`/`NotAction`,
@@ -372,7 +374,7 @@ def statementsOfJson : Json → Option (OneOrMore Statement)
   | .arr items => (items.mapM statementOfJson).map .more
   | _ => none
 
-/-- state of the derived `visit_map` of `Policy` -/
+/-- state of the hand-written `visit_map` of `Policy`: one slot per member -/
 structure PolAcc where
   version : Option (Option Version) := none
   id : Option (Option Bytes) := none
@@ -388,26 +390,18 @@ def policyField (acc : PolAcc) (kv : Bytes × Json) : Option PolAcc :=
   else if kv.1 = kStatement then
     if acc.statement.isSome then none
     else (statementsOfJson kv.2).map fun v => { acc with statement := some v }
-  else some acc  -- `__ignore`: the value is skipped
+  else some acc  -- `Field::Other`: the value is skipped
 
-/-- derived `visit_map` of `Policy` -/
+/-- `visit_map` of `Policy`: the loop, then `Statement` is required -/
 def policyOfMembers (ms : List (Bytes × Json)) : Option Policy :=
   (ms.foldlM policyField {}).bind fun acc =>
   acc.statement.bind fun st =>
   some { version := acc.version.getD none, id := acc.id.getD none, statement := st }
 
-/-- derived `visit_seq` of `Policy` (reachable because serde_json's `deserialize_struct` accepts an
-    array): exactly the three fields in declaration order -/
-def policyOfSeq : List Json → Option Policy
-  | [v, i, s] =>
-    (optVersion v).bind fun v => (optString i).bind fun i => (statementsOfJson s).bind fun s =>
-    some { version := v, id := i, statement := s }
-  | _ => none
-
-/-- `Policy::deserialize` on a parsed JSON value, as an `Option` -/
+/-- `Policy::deserialize` = `deserialize_map` on a parsed JSON value, as an `Option`: objects only (an
+    array, a string, a number, … is `invalid_type`) -/
 def fromJson? : Json → Option Policy
   | .obj ms => policyOfMembers ms
-  | .arr items => policyOfSeq items
   | _ => none
 
 inductive Err where
